@@ -66,6 +66,10 @@ def cases(tier, seed):
     for T in threads:
         for mk in ({"kind": "none"}, {"kind": "bool_sym"}) if T == 1 else ({"kind": "none"}, {"kind": "fancy", "L": 3}):
             out.append({"func": "sum", "dtype": "int64", "N": N, "G": G, "mask": mk, "threads": T, "int_sentinel": True})
+            if T <= 2:
+                # the null-skipping kernels on the same alphabet: the sentinel is skipped, never added or counted
+                for f2 in ("mean", "count", "max", "first"):
+                    out.append({"func": f2, "dtype": "int64", "N": N, "G": G, "mask": mk, "threads": T, "int_sentinel": True})
     # (not with a chunked VALUES list: group_sum picks the null-skipping reducer for anything that is not an ndarray, so the sentinel is
     # skipped there and poisons here - a container-dependent dispatch outside this property; see DESIGN 0, false alarms)
     if tier == "thorough":
